@@ -252,11 +252,63 @@ def C05(run):
     interptrace(run)
 
 
+def clitrace(run, fams):
+    """Record runs of the built rrss binary on TLC-generated programs and validate every observation against CliTrace.tla."""
+    import subprocess
+    cases = run.path('cli_cases.txt')
+    with open(cases, 'w') as out:
+        for fam, limit in fams:
+            o = run.path('g_%s.out' % fam)
+            res = run_tlc('MC_Grammar.tla', 'MC_Grammar_%s_%s.cfg' % (fam, 'quick'), o, xss='256m')
+            run.add_tlc('cli-corpus-' + fam, res)
+            n = 0
+            for l in open(o, errors='replace'):
+                if l.startswith('<<"R"') and '~' not in l and '^' not in l and '|' not in l and n < limit:
+                    out.write(l)
+                    n += 1
+            os.remove(o)
+    rrss = build_rrss_bin()
+    binp = build_harness('debug')
+    trace = run.path('cli.ndjson')
+    p = subprocess.run([binp, 'record', 'cli', '--in', cases, '--bin', rrss, '--dir', run.path(''), '--out', trace],
+                       stdout=subprocess.PIPE, stderr=subprocess.PIPE, text=True)
+    if p.returncode != 0:
+        raise ToolError('cli recorder failed: ' + p.stderr[-800:])
+    out = run.path('clitrace.out')
+    res = run_tlc('CliTrace.tla', 'CliTrace.cfg', out, workers=1, extra_env={'TRACE': trace}, depth_first=True, xss='64m', heap='2g')
+    lines = open(trace).read().splitlines()
+    run.exhaustive = False
+    run.jobs.append(dict(job='clitrace', kind='trace-validation', module='CliTrace.tla', events=len(lines), accepted=res['ok'],
+                         states=res['distinct'], wall_s=round(res['wall'], 1), error=res['error']))
+    run.states += res['distinct']
+    run.transitions += res['states']
+    if res['ok']:
+        run.traces += len(lines)
+        run.evaluations += len(lines)
+        run.distinct_nontrivial += len(set(lines))
+        for l in lines[:2]:
+            run.samples.append(dict(job='clitrace', trace_line=json.loads(l)))
+    else:
+        rejected = None
+        for l in open(out, errors='replace'):
+            if l.startswith('<<"REJECTED"'):
+                rejected = l.strip()[:4000]
+        if rejected is None:
+            raise ToolError('CliTrace failed without a rejected event: %s (see %s)' % (res['error'], out))
+        run.violations.append(dict(family=None, job='clitrace', msg='observed run of the rrss binary rejected by CliTrace.tla',
+                                   rec=None, rejected=rejected, trace=trace))
+
+
 def C08(run):
     run.rule = ('family IO: say/listen programs x input texts x every writer byte budget x every failing read call; the instrumented '
-                'reader hands out one line per call and the writer accepts a byte budget; ' + INTERP_NOTE)
+                'reader hands out the input in chunks (a line in pieces, two lines at once) and the writer accepts a byte budget; '
+                + INTERP_NOTE + '; and the built binary is observed on say/listen programs (prompt visible before input is supplied, closed '
+                'standard output, invalid UTF-8 input), each observation validated against CliTrace.tla')
     run.assumptions += ['input is valid UTF-8 with LF line ends; byte budgets are applied to ASCII output only']
     interp(run, 'IO')
+    # the same protocol at the process boundary (src/cli/exec.rs): a prompt written by `say` is on standard output before the
+    # following `listen` gets its input; a standard output that cannot be written to is a reported runtime error; undecodable input
+    clitrace(run, (('cli', 1000),))
 
 
 def C09(run):
@@ -366,6 +418,9 @@ def C02(run):
     run.assumptions += ['"every spelling" = the choice points of Grammar.tla (grown from the alias table and the parser\'s optional-token sites)']
     for fam in ('expr', 'stmt', 'block'):
         grammar(run, fam)
+    # "numbers denote exactly their written value": number literals of the exact, big and tiny classes are atoms of family expr;
+    # the numbers that poetic literals spell (1-22 digits) are family poetic, judged without the open-delimiter strings of C11
+    grammar(run, 'poetic', family='poeticrun')
     # the other direction: texts the grammar did not produce.  The recogniser model assigns each line-fragment soup text a tree or
     # an error line; the real parser must assign the same (accepted texts: exactly the tree).
     parser_soup(run, ['lines3'] if run.tier == 'quick' else ['lines4', 'core4'])
@@ -409,48 +464,7 @@ def C20(run):
     run.assumptions += ['`rrss` with no argument at all exits 0 today; the statement does not settle whether that is bad usage, so it is not judged',
                         'ASCII corpus (TLC prints non-ASCII as ?)']
     run.add_tlc('cli-model', run_tlc('MC_Cli.tla', 'MC_Cli.cfg', run.path('mc_cli.out'), workers=4))
-    cases = run.path('cli_cases.txt')
-    with open(cases, 'w') as out:
-        for fam, limit in (('cli', 1000), ('fault', 120 if run.tier == 'quick' else 2000), ('stmt', 60 if run.tier == 'quick' else 600)):
-            o = run.path('g_%s.out' % fam)
-            res = run_tlc('MC_Grammar.tla', 'MC_Grammar_%s_%s.cfg' % (fam, 'quick'), o, xss='256m')
-            run.add_tlc('cli-corpus-' + fam, res)
-            n = 0
-            for l in open(o, errors='replace'):
-                if l.startswith('<<"R"') and '~' not in l and '^' not in l and '|' not in l and n < limit:
-                    out.write(l)
-                    n += 1
-            os.remove(o)
-    rrss = build_rrss_bin()
-    binp = build_harness('debug')
-    trace = run.path('cli.ndjson')
-    p = subprocess.run([binp, 'record', 'cli', '--in', cases, '--bin', rrss, '--dir', run.path(''), '--out', trace],
-                       stdout=subprocess.PIPE, stderr=subprocess.PIPE, text=True)
-    if p.returncode != 0:
-        raise ToolError('cli recorder failed: ' + p.stderr[-800:])
-    out = run.path('clitrace.out')
-    res = run_tlc('CliTrace.tla', 'CliTrace.cfg', out, workers=1, extra_env={'TRACE': trace}, depth_first=True, xss='64m', heap='2g')
-    lines = open(trace).read().splitlines()
-    run.exhaustive = False
-    run.jobs.append(dict(job='clitrace', kind='trace-validation', module='CliTrace.tla', events=len(lines), accepted=res['ok'],
-                         states=res['distinct'], wall_s=round(res['wall'], 1), error=res['error']))
-    run.states += res['distinct']
-    run.transitions += res['states']
-    if res['ok']:
-        run.traces += len(lines)
-        run.evaluations += len(lines)
-        run.distinct_nontrivial += len(set(lines))
-        for l in lines[:2]:
-            run.samples.append(dict(job='clitrace', trace_line=json.loads(l)))
-    else:
-        rejected = None
-        for l in open(out, errors='replace'):
-            if l.startswith('<<"REJECTED"'):
-                rejected = l.strip()[:4000]
-        if rejected is None:
-            raise ToolError('CliTrace failed without a rejected event: %s (see %s)' % (res['error'], out))
-        run.violations.append(dict(family=None, job='clitrace', msg='observed run of the rrss binary rejected by CliTrace.tla',
-                                   rec=None, rejected=rejected, trace=trace))
+    clitrace(run, (('cli', 1000), ('fault', 120 if run.tier == 'quick' else 2000), ('stmt', 60 if run.tier == 'quick' else 600)))
 
 
 PROPS = {
